@@ -158,12 +158,24 @@ def const_int(n):
     return None
 
 
+def _bare(t):
+    t = (t or "").strip()
+    if t.startswith("const "):
+        t = t[6:]
+    return t.rstrip("&").strip()
+
+
 def strip_casts(n):
-    while n is not None and n["k"] in (
-            "ImplicitCastExpr", "CStyleCastExpr", "CXXStaticCastExpr",
-            "CXXFunctionalCastExpr", "CXXReinterpretCastExpr",
-            "CXXConstCastExpr") and kids(n):
-        n = kids(n)[0]
+    """looks through casts and through copy/move constructions of the same type"""
+    while n is not None and kids(n):
+        if n["k"] in ("ImplicitCastExpr", "CStyleCastExpr", "CXXStaticCastExpr",
+                      "CXXFunctionalCastExpr", "CXXReinterpretCastExpr", "CXXConstCastExpr"):
+            n = kids(n)[0]
+        elif n["k"] == "CXXConstructExpr" and len(kids(n)) == 1 and kids(n)[0] is not None and \
+                _bare(kids(n)[0].get("ty")) == _bare(n.get("ty")):
+            n = kids(n)[0]
+        else:
+            break
     return n
 
 
